@@ -296,6 +296,7 @@ class MQTTBaseProtocol(Protocol):
         self._pingReq.timer = None
         self._pingReq.alarm = None
         self._pingReq.pdu   = self._pingReq.encode()    # reuses the same PDU over and over again
+        self._connectSent   = False # only one CONNECT per network connection
         self.onDisconnection = None # callback to be invoked
 
  # ------------------------------------------------------------------------
@@ -684,6 +685,10 @@ class MQTTBaseProtocol(Protocol):
             request.deferred = None
             self.transport.abortConnection()            
 
+        if self._connectSent:
+            # [MQTT-3.1.0-2] a second CONNECT on the same network connection is a protocol 
+            # violation. A new connection (and so a new protocol object) is needed.
+            return defer.fail(MQTTStateError("Unexpected connect() operation", "CONNECT already sent"))
         try:
             self._checkConnect(request)
             pdu = request.encode()
@@ -693,6 +698,7 @@ class MQTTBaseProtocol(Protocol):
         self._cleanStart = request.cleanStart
         self._version    = request.version
         self.transport.write(pdu)
+        self._connectSent = True
         # Changes state and returns deferred
         self.state = self.CONNECTING
         request.alarm = self.callLater(request.keepalive or 10, connectError)
